@@ -476,6 +476,14 @@ class EMix(Enum):
     F = 2.5
 
 
+class EUnh(Enum):
+    """Member values that cannot be hashed: the exact-value loader has to fall back from its dict lookup (seeded change C01-a)."""
+    L = [1, 2]
+    D = {"k": "v"}
+    H = 7
+    E = []
+
+
 class IE(IntEnum):
     ZERO = 0
     ONE = 1
@@ -507,6 +515,10 @@ class EnumT(Node):
         self.cls = cls
         self.class_origin = cls
         self.str_dump = all(type(m.value) is str for m in cls)
+        try:
+            hash(tuple(m.value for m in cls))
+        except TypeError:
+            self.hashable = False   # members hash, their dumps do not: not usable as dict keys (the dumped dict cannot be built)
 
     def gen(self, rng):
         return rng.choice(list(self.cls))
@@ -815,10 +827,8 @@ class IterT(Node):
         if strict:
             if isinstance(d, cabc.Mapping):
                 return REJ
-            if type(d) is str:
-                return REJ
             if isinstance(d, str):
-                return UNS
+                return REJ   # "any iterable excluding str and Mapping": an instance of a str subclass is a str (defect #47, fixed ad77896)
         try:
             it = iter(d)
         except TypeError:
@@ -858,10 +868,8 @@ class TupleT(Node):
         if strict:
             if isinstance(d, cabc.Mapping):
                 return REJ
-            if type(d) is str:
-                return REJ
             if isinstance(d, str):
-                return UNS
+                return REJ   # "any iterable excluding str and Mapping": an instance of a str subclass is a str (defect #47, fixed ad77896)
         try:
             iter(d)
         except TypeError:
@@ -961,7 +969,7 @@ def scalar_nodes():
         StrCtorT(P.PosixPath, PATHS, lambda x: x.__fspath__()),
         StrCtorT(P.Path, PATHS, lambda x: x.__fspath__(), result_cls=type(P.Path("a")), hint=os.PathLike[str], src="PathLike[str]"),
         PatternT(),
-        EnumT(EInt), EnumT(EStr), EnumT(EMix), EnumT(IE), FlagT(FRWX), FlagT(FZ), FlagT(IF),
+        EnumT(EInt), EnumT(EStr), EnumT(EMix), EnumT(EUnh), EnumT(IE), FlagT(FRWX), FlagT(FZ), FlagT(IF),
     ]
 
 
